@@ -102,6 +102,28 @@ def corpus_cases():
     for kind in ("delete", "truncate", "garbage", "nonutf8", "chmod", "dir"):
         for path in ("classes/c.yml", "classes/d.yml", "nodes/n.yml"):
             out.append(crash_case([dict(f) for f in base], faults=[{"path": path, "kind": kind}], tag="fault:" + kind))
+    # the live instance is reconfigured between construction and rendering, also by calls that FAIL half-way (a config
+    # file rejected after some of its options were applied, a pattern list that does not compile); whatever state that
+    # leaves behind, rendering afterwards must come back
+    miss = [{"path": "classes/c.yml", "raw": "classes: [d, gone.one, zz.two]\nparameters: {x: 1}\n"}, {"path": "classes/d.yml", "raw": "parameters: {y: 2}\n"},
+            {"path": "nodes/n.yml", "raw": "classes: [c, missing]\n"}, {"path": "nodes/m.yml", "raw": "classes: [d]\n"}]
+    long_ok = ["^a$", "^b$", "^c$", "^gone", "^zz", "missing"]
+    recs = [
+        [{"load_options": [["ignore_class_notfound_regexp", [42]]]}],
+        [{"load_options": [["ignore_class_notfound_regexp", ["^zz", 42, "x"]]]}],
+        [{"patterns": long_ok}, {"load_options": [["ignore_class_notfound_regexp", ["("]]]}],
+        [{"patterns": long_ok}, {"load_options": [["ignore_class_notfound_regexp", []], ["compose_node_name", "notabool"]]}],
+        [{"patterns": long_ok}, {"load_options": [["ignore_class_notfound_regexp", ["only"]], ["ignore_class_notfound", 5]]}],
+        [{"patterns": long_ok}, {"load_options": [["ignore_class_notfound_regexp", "notalist"]]}],
+        [{"load_options": [["ignore_class_notfound", True], ["ignore_class_notfound_regexp", ["^gone", "^zz", "missing", "["]]]}],
+        [{"patterns": long_ok}, {"patterns": ["("]}, {"clone": 1}],
+        [{"patterns": long_ok}, {"load_options": [["ignore_class_notfound_regexp", []], ["reclass_rs_compat_flags", 7]]}, {"clone": 1}, {"render_inventory": 1}],
+        [{"load_options": [["nodes_uri", "elsewhere"], ["ignore_class_notfound", "x"]]}],
+        [{"load_options": [["ignore_class_notfound_regexp", ["^gone"]], ["classes_uri", {"a": 1}], ["compose_node_name", []]]}],
+    ]
+    for ig in (True, False):
+        for rc in recs:
+            out.append(crash_case([dict(f) for f in miss], reconfigure=rc, tag="reconfigure", config={"ignore_class_notfound": ig}))
     out.append(crash_case([dict(f) for f in base], faults=[{"path": "classes", "kind": "rmdir"}], tag="fault:rmdir"))
     out.append(crash_case([dict(f) for f in base], faults=[{"path": "nodes", "kind": "rmdir"}], tag="fault:rmdir"))
     return out
